@@ -126,27 +126,31 @@ theorem chained_drop : ∀ (k : Nat) (hops : List (Signer SK × Nat)), Chained h
     ANY AS number, for `m = skiAndAs` under the speaker's AS number — possibly next to other keys with
     the same SKI, and `verify pk (hash m) (sign sk (hash m)) = valid` for each pair, then validation
     answers VALID at every stage of the construction (after the origin, after the second hop, …).
-    `hsig`: generated signatures are long enough for `NoOverrun` (ECDSA P-256: 8 … 72 octets; the NLRI
-    has at most 16 octets for `nlri_len ≤ 128`). -/
-theorem hop_by_hop_valid (m : KeyMode) (T : Table) (base : Data) (hops : List (Signer SK × Nat))
+    `stop`/`hsig`: for the current loop (`stop = false`) generated signatures must be long enough for
+    `NoOverrun` (ECDSA P-256: 8 … 72 octets; the NLRI has at most 16 octets for `nlri_len ≤ 128`);
+    the repaired loop (`stop = true`) needs nothing. -/
+theorem hop_by_hop_valid (m : KeyMode) (stop : Bool) (T : Table) (base : Data) (hops : List (Signer SK × Nat))
     (halg : base.alg = 1) (hafi : base.nlri.afi = 1 ∨ base.nlri.afi = 2)
     (hch : Chained hops) (hski : ∀ h ∈ hops, h.1.ski.length = 20)
     (hreg : ∀ h ∈ hops, Registered m T h.1 ∧ KeyPair verify sign h.1)
-    (hsig : ∀ sk h, base.nlri.bytes.length < 13 + (sign sk h).length)
+    (hsig : stop = true ∨ ∀ sk h, base.nlri.bytes.length < 13 + (sign sk h).length)
     (k : Nat) (hk : k < hops.length) :
-    validate hash verify m (buildPath hash sign base (hops.drop k)) T = .valid := by
+    validate hash verify m stop (buildPath hash sign base (hops.drop k)) T = .valid := by
   have hsub : ∀ h ∈ hops.drop k, h ∈ hops := fun h hh => List.mem_of_mem_drop hh
   have hlen := buildPath_lengths hash sign base (hops.drop k)
   have hfld := buildPath_fields hash sign base (hops.drop k)
   have hdl : (hops.drop k).length ≠ 0 := by simp only [List.length_drop]; omega
-  rw [validate_iff_allOk hash verify m T _ (buildPath_skis hash sign base _ (fun h hh => hski h (hsub h hh)))]
+  rw [validate_iff_allOk hash verify m stop T _ (buildPath_skis hash sign base _ (fun h hh => hski h (hsub h hh)))]
   · refine ⟨⟨?_, ?_, by omega, by rw [hfld.1]; exact halg, by rw [hfld.2]; exact hafi⟩, ?_⟩
     · intro h; rw [h] at hlen; simp at hlen; omega
     · intro h; rw [h] at hlen; simp at hlen; omega
     · exact buildPath_allOk hash verify sign m T base _ (chained_drop k hops hch) (fun h hh => hreg h (hsub h hh))
-  · intro s hs
-    obtain ⟨sk, h, e⟩ := buildPath_last_sig hash sign base _ s hs
-    rw [hfld.2, e]; exact hsig sk h
+  · rcases hsig with hs | hsig
+    · exact Or.inl hs
+    · refine Or.inr ?_
+      intro s hs
+      obtain ⟨sk, h, e⟩ := buildPath_last_sig hash sign base _ s hs
+      rw [hfld.2, e]; exact hsig sk h
 
 end
 
@@ -166,10 +170,10 @@ def table : Table := [⟨7, List.replicate 20 2, [99]⟩, ⟨8, List.replicate 2
 def tableAs : Table := [⟨64496, List.replicate 20 2, [99]⟩, ⟨64496, List.replicate 20 2, [22]⟩, ⟨65536, List.replicate 20 1, [11]⟩]
 
 example : Chained hops := ⟨rfl, trivial⟩
-example : validate toyHash toyVerify .skiOnly (buildPath toyHash toySign base hops) table = .valid := by decide
-example : validate toyHash toyVerify .skiOnly (buildPath toyHash toySign base (hops.drop 1)) table = .valid := by decide
-example : validate toyHash toyVerify .skiAndAs (buildPath toyHash toySign base hops) tableAs = .valid := by decide
-example : validate toyHash toyVerify .skiAndAs (buildPath toyHash toySign base hops) table = .routerKeyNotFound := by decide
+example : validate toyHash toyVerify .skiOnly false (buildPath toyHash toySign base hops) table = .valid := by decide
+example : validate toyHash toyVerify .skiOnly false (buildPath toyHash toySign base (hops.drop 1)) table = .valid := by decide
+example : validate toyHash toyVerify .skiAndAs true (buildPath toyHash toySign base hops) tableAs = .valid := by decide
+example : validate toyHash toyVerify .skiAndAs true (buildPath toyHash toySign base hops) table = .routerKeyNotFound := by decide
 -- sign_digest_eq_rfc on a forwarding step (one earlier signature, IPv6 /33)
 example :
     let d := { buildPath toyHash toySign base (hops.drop 1) with path := transit.seg :: (buildPath toyHash toySign base (hops.drop 1)).path, targetAs := 65537 }
